@@ -2986,14 +2986,18 @@ def _inv_root_from_root(
     from linear_operator.operators.dense_linear_operator import to_linear_operator
     from linear_operator.operators.triangular_linear_operator import TriangularLinearOperator
 
+    dense_root = to_dense(root)
     if isinstance(root, TriangularLinearOperator):
-        # inverting a triangular root is a simple triangular solve against the identity
-        dense_root = to_dense(root)
-        eye = torch.eye(dense_root.size(-1), device=dense_root.device, dtype=dense_root.dtype)
-        upper = getattr(root, "upper", False)  # e.g. diagonal roots do not carry this attribute
-        inv = torch.linalg.solve_triangular(dense_root, eye, upper=upper)
-        return TriangularLinearOperator(inv.mT, upper=not upper)
-    return to_linear_operator(stable_pinverse(to_dense(root)).mT)
+        # inverting a triangular root is a simple triangular solve against the identity. The orientation is read off the
+        # data: diagonal roots carry no `upper` attribute, and some operators hand out an upper factor labelled as lower
+        # (e.g. BatchRepeatLinearOperator._cholesky of an upper CholLinearOperator)
+        is_lower = torch.equal(dense_root, dense_root.tril())
+        is_upper = torch.equal(dense_root, dense_root.triu())
+        if is_lower or is_upper:
+            eye = torch.eye(dense_root.size(-1), device=dense_root.device, dtype=dense_root.dtype)
+            inv = torch.linalg.solve_triangular(dense_root, eye, upper=not is_lower)
+            return TriangularLinearOperator(inv.mT, upper=is_lower)
+    return to_linear_operator(stable_pinverse(dense_root).mT)
 
 
 def _scale_columns(
